@@ -168,7 +168,11 @@ def search(chk, broken):
             # steep sight line a horizontal wind also moves the projectile ALONG its inclined path (reaching the distance earlier in a steep
             # climb means lower), which can outweigh the change in gravity drop, so both winds may lower it (seen at +57 deg, 6 s of flight)
             flat_fire = abs(shot.look_angle >> U.Degree) <= 10.0
-            if not (dt_h * dt_t < 0 and (dh_h * dh_t < 0 or not flat_fire)):
+            # ... and only where the change of height is an effect, not noise: on a short flight that is still climbing at the distance,
+            # arriving later (head wind) means both more gravity drop and more climb, the two cancel to ~1e-6 in and either sign can
+            # win (seen: +7.5e-6 in / +4.9e-7 in after 0.185 s) — the statement is about the drop, which needs a measurable change
+            measurable = min(abs(dh_h), abs(dh_t)) > 1e-3
+            if not (dt_h * dt_t < 0 and (dh_h * dh_t < 0 or not flat_fire or not measurable)):
                 chk.failures.append(Failure('head-tail', 'head and tail wind do not change drop and time of flight in opposite senses',
                                             {'op': 'head-tail', 'heights_in': [hl.height.raw_value, nl.height.raw_value, tl.height.raw_value],
                                              'times': [hl.time, nl.time, tl.time]}))
